@@ -237,6 +237,74 @@ Fixpoint stmt_unamb (fuel : nat) (t : ty) (v : pv) {struct fuel} : bool :=
     end
   end.
 
+(* Side condition of the weak (fixpoint) form.  No unambiguity is asked.  At a union position the local
+   fixpoint marshal(unmarshal(m)) = m for m = marshal(v) is CHECKED by evaluation (this is where the
+   implementation's open finding C01-union-fixpoint-noncanonical lives); around and above union positions
+   nothing is checked but the shape of the value, plus: sets / mapping keys that contain such positions must
+   not collapse after the (possibly different) members come back. *)
+Fixpoint fix_ok (fuel : nat) (t : ty) (v : pv) {struct fuel} : bool :=
+  match fuel with
+  | 0 => false
+  | S n =>
+    match t with
+    | TLeaf s | TRefLeaf s => lv s v
+    | TNone => is_none_val rt v
+    | TSeq k a =>
+        match v with
+        | PSeq k' l =>
+            seqkind_eqb k k' && forallb (fix_ok n a) l &&
+            match k with
+            | KSet | KFrozenset =>
+                match mapM (mar rt E n a) l with
+                | Ok ws => match mapM (unm rt E n a) ws with
+                           | Ok vs' => negb (existsb (unhashable rt) vs') && nodup_from [] vs'
+                           | _ => false end
+                | _ => true
+                end
+            | _ => true
+            end
+        | _ => false
+        end
+    | TMap k kt vt =>
+        match v with
+        | PDict k' kvs =>
+            dictkind_eqb k k' &&
+            forallb (fun kv => fix_ok n kt (fst kv) && fix_ok n vt (snd kv)) kvs &&
+            match mapM (mar rt E n kt) (map fst kvs) with
+            | Ok ws => nodup_from [] ws &&
+                       match mapM (unm rt E n kt) ws with
+                       | Ok ks' => negb (existsb (unhashable rt) ks') && nodup_from [] ks'
+                       | _ => false end
+            | _ => true
+            end
+        | _ => false
+        end
+    | TTuple ts =>
+        match v with PSeq KTuple l => forallb2 (fix_ok n) ts l | _ => false end
+    | TUnion ts =>
+        match mar rt E (S n) (TUnion ts) v with
+        | Ok m => match unm rt E (S n) (TUnion ts) m with
+                  | Ok v' => match mar rt E (S n) (TUnion ts) v' with Ok m' => pv_eqb m' m | _ => false end
+                  | _ => false end
+        | _ => true
+        end
+    | TName c | TRef c | TAliasStr _ c =>
+        match E c with
+        | None => false
+        | Some (NType t') => fix_ok n t' v
+        | Some (NClass cd) =>
+            match class_fields c cd v with
+            | Some fs =>
+                nodup_nat (map fst fs) &&
+                forallb (fun fv => match field_ty cd (fst fv) with
+                                   | Some ft => fix_ok n ft (snd fv) | None => false end) fs
+            | None => false
+            end
+        end
+    | TNewType _ t' | TAlias _ t' | TFinal t' | TClassVar t' | TRefTo t' => fix_ok n t' v
+    end
+  end.
+
 (* a mapping key type that is a leaf behind transparent wrappers *)
 Fixpoint key_leaf (fuel : nat) (t : ty) {struct fuel} : option nat :=
   match fuel with
